@@ -49,6 +49,11 @@ pub fn gen(seed: u64, tier: Tier) -> ScenarioSpec {
                     format!("{}/{}{}", "x".repeat(100 - k.len() - 1), k, *rng.pick(&[".orig", ".bak", "2", "~"]))
                 }
                 7 => format!("{}/", *rng.pick(&["notes", "extra.d", "frames.arrow.d"])),
+                5 => {
+                    // a single file name that merely CONTAINS a known name after a backslash or other separator-like character
+                    let k = *rng.pick(&["start.raw", "end.raw", "peppi.json", "metadata.json", "frames.arrow", "gecko_codes.raw"]);
+                    format!("{}{}{}", *rng.pick(&["backup", "old", "v1"]), *rng.pick(&["\\", ":", " ", "#"]), k)
+                }
                 0 => "notes.txt".to_string(),
                 1 => "extra.json".to_string(),
                 2 => "sub/dir/thing.bin".to_string(),
@@ -62,6 +67,11 @@ pub fn gen(seed: u64, tier: Tier) -> ScenarioSpec {
         }
     }
     spec.knobs.insert("prelude".into(), gen_prelude(&mut rng, &[3, 5], 3));
+    if rng.chance(1, 8) {
+        // biased to the tail of the archive (padding, Arrow footer, end-of-archive blocks)
+        let approx = 9000 + 2 * len as i64;
+        spec.knobs.insert("enospc".into(), if rng.chance(1, 2) { approx - rng.below(9000) as i64 } else { rng.below(approx as u64) as i64 });
+    }
     if rng.chance(1, 3) {
         spec.archive_version = Some(match rng.below(8) {
             0 => [1, 255, 255],
@@ -129,6 +139,17 @@ pub fn run(spec: &ScenarioSpec, ctx: &mut Ctx) -> Result<(), Violation> {
     let has_frames = ga.frames.len() > 0;
     let has_end = ga.end.is_some();
     let has_gecko = ga.gecko_codes.is_some();
+    // now and then the disk fills up while the archive is written: then there is no archive and the writer must say so
+    if let Some(budget) = spec.knobs.get("enospc").copied() {
+        let gfull = expect_ok(P, "slippi::read", read_slp(&m.bytes, &StreamSpec::default(), &edges, spec.opts).res)?;
+        let wf = write_slpp(gfull, &SinkSpec { enospc_after: Some(budget as u64), ..spec.sink.clone() }, spec.compression);
+        if wf.failed {
+            if let Res::Ok(()) = wf.res {
+                return Err(Violation::new(P, "swallowed-io-error", "peppi::write", format!("the sink failed after {} bytes but peppi::write returned Ok: what it left behind is not a tar archive", wf.data.len())));
+            }
+            ctx.probe("sink full: writer reported the error");
+        }
+    }
     let wa = write_slpp(ga, &spec.sink, spec.compression);
     note_write(ctx, &wa);
     if is_o7(m.v, &wa.res) {
